@@ -1,9 +1,27 @@
 PROPERTY = "C12"
 LEVEL = "proof"
-FUNCTIONS = ["stdio_read_at"]
+FUNCTIONS = ["stdio_read_at", "stdio_write_at", "write_all"]
 TRUSTED = []
 ASSUMPTIONS = []
+
+
+def _h(name, loops=None, **kw):
+    d = dict(name=name, file=name + ".c", label="proved", solver="cadical",
+             timeout=300)
+    if loops:
+        d["loops"] = loops
+    d.update(kw)
+    return d
+
+
 HARNESSES = [
-    dict(name="read_at", file="read_at.c", label="proved",
-         loops=["stdio_read_at"], timeout=120),
+    _h("read_at", ["stdio_read_at"]),
+    _h("write_at", ["stdio_write_at"]),
+    _h("write_all", ["write_all"]),
+    _h("realize_sparse", ["realize_sparse", "write_all"], malloc_fail=True,
+       flags=["--memory-leak-check"]),
+    _h("append", ["realize_sparse", "write_all"], malloc_fail=True,
+       flags=["--memory-leak-check"], timeout=600),
+    _h("flush", ["realize_sparse", "write_all"], malloc_fail=True,
+       flags=["--memory-leak-check"], timeout=600),
 ]
